@@ -36,7 +36,7 @@ CHECK = {
         gomaxprocs=2,
         rule="one evaluation = one seeded history. Arms: (a) sweeper/fault-free and (b) sweeper/faulty: 20-50 steps (x2 in thorough) of offering inputs of 8 witness kinds to the real UtxoSweeper (values, budgets incl. near-floor and above-value, deadlines from passed to >1008 blocks, optional starting rate, immediate flag, exclusive anchors), wallet coins, block beats (single, skipped heights up to +450, jumps to 1-3 blocks before a live request's deadline) with own-version confirmations (latest or earlier) and, in (b), third-party spends, estimator faults and wallet verdicts; in half of the runs of (a) and (b) also up to 3 restarts (sweeper and publisher stopped and rebuilt over the same chain/mempool/store, unresolved inputs offered again; sweeps published before a restart can still confirm afterwards); followed by a fault-free wind-down that walks every live request to one block before its deadline. Every transaction handed to CheckMempoolAcceptance/PublishTransaction, every BumpRequest and every BumpResult is judged. (c) fee-function: the real LinearFeeFunction driven through 10-50 calls (IncreaseFeeRate with shrinking / skipped / stale conf targets, Increment) plus a final IncreaseFeeRate(1), FeeRate() judged after every call. non-trivial = (a,b) at least one request was judged at its deadline and at least one fee bump across blocks happened (b: and an injected fault fired; a restart counts as one) / (c) at least two increases and the ceiling reached; distinct = distinct event-trace hash",
         states_measure="distinct (live requests, offered inputs, mempool size, wallet coins) tuples / (log2 conf target, at-ceiling) for the fee-function arm",
-        expected_probes=["probe_ramped_to_ceiling", "probe_feefn_reached_ceiling", "probe_attempt_below_floor",
+        expected_probes=["probe_required_output_below_input_value", "probe_ramped_to_ceiling", "probe_feefn_reached_ceiling", "probe_attempt_below_floor",
                          "fault_third_party_spend", "fault_confirm_earlier_version", "fault_estimator_error",
                          "fault_check_insufficient_fee", "fault_publish_generic", "ceiling_checks", "fee_bumps",
                          "blocks_skipping_heights", "fault_restart", "probe_restart_with_own_sweep_in_mempool",
